@@ -76,6 +76,8 @@ def _inv_terms(fsm, read, fired, conf):
             live = z3.And(T(rd(tr, 'connected')) != 0, z3.Not(Bt(rd(tr, 'disconnecting'))),
                           z3.Not(Bt(rd(P, 'disconnected'))))
         out.append(('I1-session-has-connection', z3.Implies(in_session, live)))
+    if P is not None and isinstance(P, Obj) and 'fourbytesas' in P.f:
+        out.append(('C05-no-4-octet-mode-before-the-peer-OPEN', z3.Implies(st == ST_OPENSENT, z3.Not(Bt(rd(P, 'fourbytesas'))))))
     out.append(('I2-no-connect-retry-in-session', z3.Implies(in_session, z3.Not(act['cr']))))
     out.append(('I2b-no-idle-hold-in-session', z3.Implies(in_session, z3.Not(act['ihold']))))
     out.append(('I3-opensent-hold', z3.Implies(st == ST_OPENSENT, act['hold'])))
@@ -120,7 +122,7 @@ def _inv_terms(fsm, read, fired, conf):
 
 TIMING_CLAUSES = ('I3-opensent-hold', 'I4a-timers-running', 'I4c-keepalive-interval',
                   'I4b-no-timers-when-hold-time-zero', 'I4d-negotiated-hold-time-legal',
-                  'NoPoison-offered-hold-time-is-configured')
+                  'NoPoison-offered-hold-time-is-configured', 'C05-no-4-octet-mode-before-the-peer-OPEN')
 
 
 def Inv(fsm, read=None, fired=None, structural_only=False, skip=()):
@@ -253,7 +255,8 @@ def msg_event_requires(s, fsm):
     """T1: a message is delivered only on the live tracked connection, i.e. in OpenSent/OpenConfirm/Established
     (the RFC's rows for messages in Connect are dead in this profile: nothing is connected in Connect, and
     nothing buffered is processed after a close)"""
-    s.c.requires(z3.Or([T(s.get(fsm, 'state')) == k for k in SESSION_STATES]), 'T1: message events occur in a session state')
+    s.c.requires(z3.Or([T(s.get(fsm, 'state')) == k for k in SESSION_STATES + (ST_IDLE,)]),
+                 'T1: message events occur in a session state (or in Idle, right after this very message closed the session: ignored)')
 
 
 def prof(fn, fired=None, structural_only=False):
@@ -339,6 +342,10 @@ def ev_delay_open_timer(s, fsm):
 def ev_connection_made(s, fsm):
     """Events 16/17 (TCP connection succeeds) — DelayOpen off"""
     s.c.requires(z3.Implies(T(s.get(fsm, 'state')) == ST_CONNECT, live_protocol(s, fsm)), 'new connection is live')
+    P_ = s.get(fsm, 'protocol')
+    if P_ is not None and 'fourbytesas' in P_.f:
+        s.c.requires(z3.Implies(T(s.get(fsm, 'state')) == ST_CONNECT, z3.Not(Bt(s.get(P_, 'fourbytesas')))),
+                     'T1: the new connection is a freshly constructed protocol instance')
     if state_in(s, fsm, (ST_CONNECT,)):
         t_cancel(s, timer(s, fsm, 'cr'))
         t_cancel(s, timer(s, fsm, 'ihold'))
@@ -430,13 +437,13 @@ def ev_open_received(s, fsm):
         drop(s, fsm)
 
 
-@prof
+@prof('structural')
 def ev_header_error(s, fsm, suberror, data=b''):
     s.c.requires(z3.Or([T(s.get(fsm, 'state')) == k for k in SESSION_STATES]), 'message received in a session state')
     err_close(s, fsm, wire.E_HDR, suberror, data)
 
 
-@prof
+@prof('structural')
 def ev_open_message_error(s, fsm, suberror, data=b''):
     s.c.requires(z3.Or([T(s.get(fsm, 'state')) == k for k in SESSION_STATES]), 'message received in a session state')
     err_close(s, fsm, wire.E_OPEN, suberror, data)
